@@ -502,6 +502,20 @@ ExecS(P, s, env, st0, ctx) ==
                     ELSE IF s.bare /\ (i < 0 \/ i > 3) THEN R(env, [b.st EXCEPT !.status = "oor"])
                     ELSE IF mv.mp = 0 THEN R(env, Panic(IF s.form = "xfirst" THEN Store(b.st, env[s.x], a.v) ELSE b.st, "fault"))
                     ELSE R(env, MapPut(Store(b.st, env[s.x], a.v), mv, i % 4, b.v))
+      [] s.k = "asgidxc" ->   \* x, arr[x] = two(e)  |  arr[x], x = two(e)  |  the same with a map m[x]: the index is read before
+                              \* the results are assigned (x is a local that two cannot reach), then left to right
+            LET i == st.cells[env[s.x]]
+                a == EvalE(P, s.e, env, st)
+            IN IF ~Ok(a.st) THEN R(env, a.st) ELSE
+               LET cl == CallFn(P, "two", <<a.v>>, a.st) IN
+               IF ~Ok(cl.st) THEN R(env, cl.st) ELSE
+               LET vx == IF s.form = "xfirst" THEN cl.vs[1] ELSE cl.vs[2]
+                   vc == IF s.form = "xfirst" THEN cl.vs[2] ELSE cl.vs[1]
+                   c  == IF i % 2 = 0 THEN Env0.a0 ELSE Env0.a1
+               IN IF s.s = "" THEN R(env, Store(Store(cl.st, env[s.x], vx), c, vc))
+                  ELSE LET mv == cl.st.cells[env[s.s]] IN
+                       IF mv.mp = 0 THEN R(env, Panic(IF s.form = "xfirst" THEN Store(cl.st, env[s.x], vx) ELSE cl.st, "fault"))
+                       ELSE R(env, MapPut(Store(cl.st, env[s.x], vx), mv, i % 4, vc))
       [] s.k = "slswap" ->    \* s[i], s[j] = s[j], s[i]
             LET bc == st.cells[env[s.s]].back
                 b  == st.cells[bc]
